@@ -84,6 +84,20 @@ func init() {
 		Scenarios: []scenSpec{{Name: "shmqueue", Share: 1}},
 		LevelText: "seeded exploration of interleavings (single memory accesses as decision points) of 1-3 producer threads and the single consumer on the real ring code over one shared mapping, capacities 1-8, head/tail starting at 0, near 2^32 and beyond 2^40; the recorded invoke/return history is checked for linearizability against a bounded FIFO with porcupine, plus direct exactly-once / intact / per-producer order / 0<=tail-head<=cap checks at every step.",
 		Rule: "seeded generation of producer counts, put counts, consumer op sequences (pop/size/isEmpty), capacity and start index x seeded schedules; non-trivial = more context switches than thread starts need and at least one successful put and pop; distinct = distinct schedule signatures among non-trivial runs; histories <= 60 operations, porcupine Unknown counted as inconclusive (never reported)"})
+	sessRule := "seeded generation of a session configuration (slice classes, queue capacity 1..8192, memfd or /dev/shm file, socket buffer 1 B..256 KiB, fragmentation, spurious EAGAIN), 1-5 multiplexed streams with writer/reader/callback programs on both ends (sizes anchored at slice capacities), neighbour threads that exhaust and scribble shared memory, process stalls x seeded schedules; non-trivial = more than 200 context switches and more than 3 harness operations; distinct = distinct schedule signatures among non-trivial runs"
+	for _, c := range []struct{ id, ref, text string }{
+		{"C05", "6.C05", "real sessions on the simulated kernel: after producers stop and every notification was delivered and handled (10 s of virtual silence) both receive queues are empty and no reader is still waiting for bytes that were flushed successfully"},
+		{"C06", "6.C06", "byte-queue reference model per stream direction checked operation by operation (ReadBytes/Peek/Discard/ReadByte/ReadString/Read against WriteBytes/Reserve/WriteByte/WriteString/Write), Len() bounds and exact deltas, shared-memory, fallback and mixed transports"},
+		{"C07", "6.C07", "keyed byte streams per (stream, direction): a reader only sees the next bytes of its own stream in flush order; end-of-stream only after every byte flushed successfully before the peer's Close was offered; exhaustion and queue-full windows flip individual messages to the socket"},
+		{"C08", "6.C08", "every slice returned by ReadBytes/Peek is re-read after every later harness operation of any thread until it is released, with a scribbler neighbour overwriting whatever is free; after release everything is allocatable again"},
+		{"C09", "6.C09", "after every stream is closed on both ends and 10 s of virtual silence no shared-memory buffer is allocated (own count over the free lists and GetMetrics), over histories with unread/pinned/pending data, failed flushes, fallback, late data for closed streams"},
+		{"C10", "6.C10", "per stream end state-machine oracle: operations after a local Close fail, the stream stops counting as active, the peer gets end-of-stream and cannot send, callback ends are told exactly once; Close issued by writer, reader, main or from inside OnData"},
+		{"C11", "6.C11", "bounded-virtual-time liveness: deadlines never fire early nor more than 1 s late, no read is still blocked 5 s (virtual) after the bytes it needs were flushed, its deadline passed or the peer's Close returned"},
+		{"C20", "6.C20", "callback mode: bytes consumed inside OnData follow the keyed sequence, OnData is never re-entered per stream, never called after the local Close returned, and after 10 s of virtual silence every flushed byte has been offered"},
+	} {
+		reg(&propSpec{ID: c.id, Level: "exploration", QuickSec: 45, ThoroughSec: 1200, DesignRef: c.ref,
+			Scenarios: []scenSpec{{Name: "sess", Share: 1}}, LevelText: c.text + ". Seeded search over schedules, fault sequences and generated workloads on the real package code; violations minimised and replayed exactly. Sampling, not proof.", Rule: sessRule})
+	}
 }
 
 type runRecord struct {
@@ -331,14 +345,16 @@ func runWorkers(dir string, scn scenSpec, prop, tier string, master uint64, budg
 				"VSIM_SEED="+strconv.FormatUint(master, 10),
 				"VSIM_START="+strconv.Itoa(i), "VSIM_STRIDE="+strconv.Itoa(workers), "VSIM_COUNT=1000000000",
 				"VSIM_BUDGET_MS="+strconv.FormatInt(budget.Milliseconds(), 10),
-				"VSIM_OUT="+outPath, "VSIM_OPTS="+string(ob), "GOMAXPROCS=2")
+				"VSIM_OUT="+outPath, "VSIM_OPTS="+string(ob), "VSIM_MAX_VIOLATIONS=40", "GOMAXPROCS=2")
 			var stderr strings.Builder
 			cmd.Stderr = &stderr
 			cmd.Stdout = &stderr
 			err := cmd.Run()
 			recs, rerr := readRecords(outPath)
 			if err != nil {
-				results[i] = workerResult{recs, fmt.Errorf("worker %d (%s): %v\n%s", i, scn.Name, err, tail(stderr.String(), 4000))}
+				_ = os.MkdirAll(filepath.Join(verifDir, "replays", "tmp"), 0o755)
+				_ = os.WriteFile(filepath.Join(verifDir, "replays", "tmp", "last_worker_error.log"), []byte(stderr.String()), 0o644)
+				results[i] = workerResult{recs, fmt.Errorf("worker %d (%s): %v\n%s\n...\n%s", i, scn.Name, err, head(stderr.String(), 3000), tail(stderr.String(), 1500))}
 				return
 			}
 			results[i] = workerResult{recs, rerr}
@@ -355,6 +371,13 @@ func runWorkers(dir string, scn scenSpec, prop, tier string, master uint64, budg
 	}
 	sort.Slice(all, func(i, j int) bool { return all[i].Run < all[j].Run })
 	return all, nil
+}
+
+func head(s string, n int) string {
+	if len(s) > n {
+		return s[:n]
+	}
+	return s
 }
 
 func tail(s string, n int) string {
@@ -691,7 +714,7 @@ func writeAndMinimise(dir, prop, tier string, master uint64, tree string, rec ru
 		return "", nil, err
 	}
 	final := filepath.Join(outDir, name+".json")
-	out, err := runWorkerMode(dir, "minimize", raw, final, 60*time.Second, false)
+	out, err := runWorkerMode(dir, "minimize", raw, final, 25*time.Second, false)
 	if err != nil {
 		return "", nil, fmt.Errorf("minimisation failed (the recorded run does not reproduce?): %v\n%s", err, tail(out, 3000))
 	}
